@@ -188,6 +188,14 @@ func scheduleOf(x *in) sched {
 	return nil
 }
 
+// subNs: from this rate on (hits per nanosecond) one nanosecond of rounding is a sizeable fraction of a
+// hit; violations there are classed apart (time.Duration cannot express the hit interval).
+const subNs = 0.1
+
+func linRateNs(x *in, t int64) float64 {
+	return (x.slope()*float64(t)/1e9 + float64(x.Freq)/float64(x.Per)*1e9) / 1e9
+}
+
 type finding struct {
 	kind, what, expected, observed, clause string
 	step                                   int
@@ -273,7 +281,10 @@ func runLoop(x *in, each func(k int, t int64, n uint64, line string)) (loopOut, 
 				}
 				if sch.tooFarBehind(n+1, tr) {
 					kind := x.Pacer + "_lower"
-					if x.Pacer == "sine" && unconverged {
+					switch {
+					case x.Pacer == "sine" && ss.m+ss.a >= subNs:
+						kind = "sine_subnanosecond_interval"
+					case x.Pacer == "sine" && unconverged:
 						kind = "sine_unconverged_runaway"
 					}
 					add(finding{kind: kind, clause: "lower", step: k,
@@ -301,15 +312,21 @@ func runLoop(x *in, each func(k int, t int64, n uint64, line string)) (loopOut, 
 		out.digest = digestStep(out.digest, t, n)
 		if sch != nil && sch.tooFarAhead(n, t) {
 			kind := x.Pacer + "_upper"
+			var key map[string]interface{}
 			switch {
 			case x.Pacer == "const" && x.Per%x.Freq != 0:
 				kind = "const_truncated_interval_runs_ahead"
+			case x.Pacer == "sine" && ss.m+ss.a >= subNs:
+				kind = "sine_subnanosecond_interval"
 			case x.Pacer == "sine" && unconverged:
 				kind = "sine_unconverged_runaway"
+			case x.Pacer == "linear" && linRateNs(x, t) >= subNs:
+				kind = "linear_subnanosecond_interval"
+				key = map[string]interface{}{"rate_hits_per_ns": linRateNs(x, t)}
 			case x.Pacer == "linear" && x.slope() < 0:
 				kind = "linear_negative_slope_ahead"
 			}
-			add(finding{kind: kind, clause: "upper", step: k,
+			add(finding{kind: kind, clause: "upper", step: k, key: key,
 				what:     "the hit count exceeds the declared schedule by more than one hit",
 				expected: fmt.Sprintf("count <= S(t)+1 = %s+1 at t=%d", sch.show(t), t),
 				observed: fmt.Sprintf("count %d after step %d", n, k)})
